@@ -173,11 +173,13 @@ def check_C09(rep, tier):
 def check_C03(rep, tier):
     a = run_a.run(rep, tier, ["cmp"], lambda m: m["group"] == "cmp", "C03-cmp")
     sw = engine_s.s_widest(rep, "C03", floors=S_WIDEST_FLOORS)
-    e = run_e.run(rep, tier, ["cmp"], "C03-same", select=lambda p: p.family == "E-cmp")
+    e = run_e.run(rep, tier, ["cmp", "cmpx"], "C03-same", select=lambda p: p.family in ("E-cmp", "E-cmpx"))
     cov = _explain(
         "S-widest (necessary condition): every comparison body that truncates the re-expressed right-hand side "
         "accounts for the destination sign bit, otherwise an operand in [2^(n-1), 2^n) is read as negative. "
-        "Engine E: same-type Ord::cmp, Hash::hash (and ==, <, ... where they normalise) are those of the bits. " +
+        "Engine E: same-type Ord::cmp, Hash::hash (and ==, <, ... where they normalise) are those of the bits; "
+        "sibling cross-check between types: `a < b` is `b > a` for every pair, and each operator agrees with the "
+        "separately implemented partial_cmp at the (few) pairs where the two bodies normalise. " +
         "Engine A: every PartialEq/PartialOrd method between fixed types, primitive integers and floats (both operand "
         "orders), Ord::cmp and Hash::hash is panic-free for every operand. Not decided: the ordering logic itself "
         "(lost-bits direction, overflow short-circuit) and NaN/infinity classification.", [sw, e, a])
